@@ -47,3 +47,17 @@ package keeper
 // migration only and must stay unreachable from messages, block processing and hooks.
 //@ func (Keeper).MatchAmmBalances
 //@ migration-only
+
+// ---- frames of the liquidity operations other modules call (checked against the call-graph inference)
+//@ func (Keeper).JoinPoolNoSwap
+//@ modifies module:amm, module:accountedpool, module:assetprofile, module:commitment, module:estaking, module:masterchef, module:perpetual, module:sdk-distribution, module:tier, bank
+//@ frame-only
+
+//@ func (Keeper).ExitPool
+//@ modifies module:amm, module:accountedpool, module:commitment, module:estaking, module:masterchef, module:perpetual, module:sdk-distribution, module:tier, bank
+//@ frame-only
+
+// ---- C08 (leveragelp AddPool): a stored amm pool sits under its own id --------------------------------
+//@ rowinv C08/ammPoolKey table amm:types.KeyPrefix/types.PoolKey row types.Pool : row.PoolId == key1
+//@ func (Keeper).SetPool
+//@ ensures C08/stored-under-its-id: true
